@@ -240,7 +240,11 @@ def stage_a(ctx):
     b = ctx.tlc(sdir, "MC_Classify.tla", "MC_Classify_broken.cfg", timeout=300, workers=4, count=False)
     if not b["inv"]:
         raise vlib.InfraError("broken Classify instance (obfs4 gives up early) should violate an invariant")
+    b2 = ctx.tlc(sdir, "MC_Classify.tla", "MC_Classify_markleak.cfg", timeout=300, workers=4, count=False)
+    if b2["inv"] != "RegistryFree":
+        raise vlib.InfraError("Classify instance whose MarkActive keeps the table's lock when the sweeper was faster should violate RegistryFree, got %s" % b2["inv"])
     ctx.stage("A", invariants=["NoBytes", "NoEarlyClose", "KeepsReading", "MatchSound", "ConsumeExact", "FoundWhenComplete",
-                               "NeverDropsMatching", "MarkedUsed", "Recognised", "Terminates"],
-              nonvacuity="instance with obfs4 giving up before the handshake completes violates %s" % b["inv"])
+                               "NeverDropsMatching", "MarkedUsed", "RegistryFree", "Recognised", "Terminates"],
+              nonvacuity="instance with obfs4 giving up before the handshake completes violates %s; instance whose MarkActive returns without "
+              "unlocking when the sweeper removed the registration first violates RegistryFree" % b["inv"])
     return r
